@@ -32,6 +32,7 @@ type coState struct {
 	panicVal interface{}
 	preempt  int
 	held     map[*value]int // mutex -> thread holding it
+	rw       map[*value]*rwState
 }
 
 func (in *Interp) co() *coState {
@@ -63,7 +64,7 @@ func (in *Interp) interleave(fr *frame, fns [2]value) {
 	if in.co() != nil {
 		panic(unsupported{"nested vh.Interleave"})
 	}
-	c := &coState{main: make(chan struct{}), held: map[*value]int{}}
+	c := &coState{main: make(chan struct{}), held: map[*value]int{}, rw: map[*value]*rwState{}}
 	in.extra["co"] = c
 	in.path.noteAssumption("two threads interleaved at vh.Yield points only (scheduling decisions are symbolic booleans)")
 	savedDepth, savedFrame, savedPos := in.depth, in.curFrame, in.curPos
@@ -162,4 +163,78 @@ func (in *Interp) mutexUnlock(mu *value) {
 		return
 	}
 	delete(c.held, mu)
+}
+
+// rwState: a sync.RWMutex between the two threads: the writer (thread index or -1) and each thread's read holds.
+type rwState struct {
+	writer  int
+	readers [2]int
+}
+
+func (c *coState) rwOf(mu *value) *rwState {
+	st := c.rw[mu]
+	if st == nil {
+		st = &rwState{writer: -1}
+		c.rw[mu] = st
+	}
+	return st
+}
+
+// rwLock: Lock waits for the other thread's read and write holds to be released; taking it while
+// holding the same lock (in either mode) blocks for ever, as in Go.
+func (in *Interp) rwLock(mu *value) {
+	c := in.co()
+	if c == nil {
+		return
+	}
+	for {
+		st := c.rwOf(mu)
+		if st.writer == c.cur || st.readers[c.cur] > 0 {
+			panic(blockedSignal{"sync.RWMutex.Lock by a thread that already holds it"})
+		}
+		o := 1 - c.cur
+		if st.writer != o && st.readers[o] == 0 {
+			st.writer = c.cur
+			return
+		}
+		if c.t[o].done {
+			panic(blockedSignal{"sync.RWMutex held by a finished thread"})
+		}
+		in.coSwitch(c) // blocked: the holder runs on (forced switch, not a preemption)
+	}
+}
+
+func (in *Interp) rwUnlock(mu *value) {
+	if c := in.co(); c != nil {
+		c.rwOf(mu).writer = -1
+	}
+}
+
+func (in *Interp) rwRLock(mu *value) {
+	c := in.co()
+	if c == nil {
+		return
+	}
+	for {
+		st := c.rwOf(mu)
+		if st.writer == c.cur {
+			panic(blockedSignal{"sync.RWMutex.RLock by the thread that holds the write lock"})
+		}
+		if st.writer < 0 {
+			st.readers[c.cur]++
+			return
+		}
+		if c.t[st.writer].done {
+			panic(blockedSignal{"sync.RWMutex held by a finished thread"})
+		}
+		in.coSwitch(c)
+	}
+}
+
+func (in *Interp) rwRUnlock(mu *value) {
+	if c := in.co(); c != nil {
+		if st := c.rwOf(mu); st.readers[c.cur] > 0 {
+			st.readers[c.cur]--
+		}
+	}
 }
